@@ -42,7 +42,7 @@ def verify_target(target, timeout_ms=20000, verbose=False, repo=None):
         res.undecided = f"no contract for {target}"
         return res
     I = Interp(L, cs)
-    I.spec_builtins = {"fold", "implies", "old", "pre", "events", "same_object", "final", "byte_at", "forall", "maybe", "has_own", "pending_getters", "hexbytes", "is_xml", "md5", "sha256", "aes_ecb_enc", "aes_ecb_dec", "aes_cbc_enc", "aes_cbc_dec", "pkcs7", "xor_bytes"}
+    I.spec_builtins = {"fold", "implies", "old", "pre", "events", "same_object", "final", "byte_at", "forall", "maybe", "has_own", "pending_getters", "hexbytes", "conforms", "is_xml", "md5", "sha256", "aes_ecb_enc", "aes_ecb_dec", "aes_cbc_enc", "aes_cbc_dec", "pkcs7", "xor_bytes"}
     ex = Explorer()
     try:
         paths = ex.run(lambda p: cs.verify_path(I, c, p))
